@@ -21,7 +21,7 @@ from .. import common, scenes, tablecheck
 REQ = ['ceilo', 'dt', 'height', 'type']
 DEFECTS = ['none', 'none', 'notframe', 'empty', 'drop_col', 'dup_row', 'dup_after_coercion', 'zero_nonzero_same',
            'zero_nonzero_other', 'vv_nonvv_same', 'vv_nonvv_other', 'vv_zero_same', 'dtypes', 'extra_cols', 'col_order',
-           'index_dup', 'neg_height', 'type0_height', 'type1_nan', 'type2_alone', 'type3_alone']
+           'index_dup', 'dup_with_extra_col', 'dup_via_str_coercion', 'dup_with_extra_col', 'neg_height', 'type0_height', 'type1_nan', 'type2_alone', 'type3_alone']
 
 
 def build(seed, k):
@@ -56,6 +56,18 @@ def build(seed, k):
             extra['type'] = float(extra['type'].iloc[0])
             extra['dt'] = rng.choice([float(extra['dt'].iloc[0]), np.float32(extra['dt'].iloc[0])])
             arg = pd.concat([d2, extra], ignore_index=True)
+        elif d == 'dup_with_extra_col' and n:
+            # a duplicated hit whose copies differ only in a superfluous column (record id, source file, ...)
+            arg = pd.concat([df, df.iloc[[i]]], ignore_index=True)
+            arg['record_id'] = np.arange(len(arg))
+        elif d == 'dup_via_str_coercion' and n:
+            # copies that only become identical once 'ceilo' is coerced to str: 7 and '7'
+            d2 = df.astype({'ceilo': object})
+            r = d2.iloc[i]
+            a = scenes.make_frame([('x', float(r['dt']), float(r['height']), int(r['type']))]).astype({'ceilo': object})
+            b = a.copy()
+            a['ceilo'] = [7]; b['ceilo'] = ['7']
+            arg = pd.concat([d2, a, b], ignore_index=True)
         elif d in ('zero_nonzero_same', 'zero_nonzero_other', 'vv_nonvv_same', 'vv_nonvv_other', 'vv_zero_same') and n:
             r = df.iloc[i]
             other = d.endswith('other')
